@@ -23,3 +23,6 @@ INVARIANT InferEscapesAsRaised
 INVARIANT FnFaultAnticipated
 INVARIANT ArithFaults
 INVARIANT TrailShape
+INVARIANT PostReturns
+INVARIANT PostKeepsMessage
+INVARIANT OnlyPostCanFailAfterCheck
